@@ -108,8 +108,85 @@ fn insens<W: StringWrapper>(rep: &mut Report) {
     }
 }
 
+// the library's own `Choice2` .. `Choice12` (the derive macro generates its own copies, so these are only
+// reachable by hand-written nodes): alternative k <=> accessor `_k` <=> k-th closure of the chain
+sw!(L0, "a");
+sw!(L1, "b");
+sw!(L2, "c");
+sw!(L3, "d");
+sw!(L4, "e");
+sw!(L5, "f");
+sw!(L6, "g");
+sw!(L7, "h");
+sw!(L8, "i");
+sw!(L9, "j");
+sw!(L10, "k");
+sw!(L11, "l");
+const LITS: [&str; 12] = ["a", "b", "c", "d", "e", "f", "g", "h", "i", "j", "k", "l"];
+
+macro_rules! lib_choice {
+    ($rep:expr, $ty:ident, $n:literal, $a0:ident $w0:ident, $($idx:literal $acc:ident $w:ident,)* ; $il:literal $al:ident $wl:ident) => {{
+        use pest_typed::Storage;
+        type C = pest_typed::choices::$ty<Str<$w0>, $(Str<$w>,)* Str<$wl>>;
+        $rep.rules += 1;
+        for k in 0..=$n {
+            // one literal per alternative, plus one that no alternative matches
+            let input = if k < $n { format!("{}z", LITS[k]) } else { "z".to_string() };
+            $rep.cases += 1;
+            match parse::<C>(&input, &[]) {
+                Some((end, node)) => {
+                    $rep.nontrivial += 1;
+                    let acc: Vec<Option<&'static str>> =
+                        vec![node.$a0().map(|n| n.get_content()), $(node.$acc().map(|n| n.get_content()),)* node.$al().map(|n| n.get_content())];
+                    let exp: Vec<Option<&'static str>> = (0..$n).map(|i| if i == k { Some(LITS[i]) } else { None }).collect();
+                    if k >= $n || end != 1 || acc != exp {
+                        bad($rep, concat!(stringify!($ty), " accessors"), &input, format!("end 1 {:?}", exp), format!("end {} {:?}", end, acc));
+                    }
+                    let by_ref: (usize, &'static str) = node
+                        .if_then(|n| (0usize, n.get_content()))
+                        $(.else_if(|n| ($idx as usize, n.get_content())))*
+                        .else_then(|n| ($il as usize, n.get_content()));
+                    let dbg = format!("{:?}", node);
+                    let by_val: (usize, &'static str) = node
+                        .clone()
+                        .consume_if_then(|n| (0usize, n.get_content()))
+                        $(.else_if(|n| ($idx as usize, n.get_content())))*
+                        .else_then(|n| ($il as usize, n.get_content()));
+                    if k < $n && (by_ref != (k, LITS[k]) || by_val != (k, LITS[k])) {
+                        bad($rep, concat!(stringify!($ty), " chain"), &input, format!("closure {} with {:?}", k, LITS[k]), format!("by reference {:?}, by value {:?}", by_ref, by_val));
+                    }
+                    if k < $n && !dbg.contains(&format!("_{}:", k)) {
+                        bad($rep, concat!(stringify!($ty), " Debug"), &input, format!("field _{}", k), dbg);
+                    }
+                    $rep.outcome(format!("alt{}", k));
+                }
+                None => {
+                    if k < $n {
+                        bad($rep, stringify!($ty), &input, format!("alternative {}", k), "None".into());
+                    }
+                }
+            }
+        }
+    }};
+}
+
+fn lib_choices(rep: &mut Report) {
+    lib_choice!(rep, Choice2, 2, _0 L0, ; 1 _1 L1);
+    lib_choice!(rep, Choice3, 3, _0 L0, 1 _1 L1, ; 2 _2 L2);
+    lib_choice!(rep, Choice4, 4, _0 L0, 1 _1 L1, 2 _2 L2, ; 3 _3 L3);
+    lib_choice!(rep, Choice5, 5, _0 L0, 1 _1 L1, 2 _2 L2, 3 _3 L3, ; 4 _4 L4);
+    lib_choice!(rep, Choice6, 6, _0 L0, 1 _1 L1, 2 _2 L2, 3 _3 L3, 4 _4 L4, ; 5 _5 L5);
+    lib_choice!(rep, Choice7, 7, _0 L0, 1 _1 L1, 2 _2 L2, 3 _3 L3, 4 _4 L4, 5 _5 L5, ; 6 _6 L6);
+    lib_choice!(rep, Choice8, 8, _0 L0, 1 _1 L1, 2 _2 L2, 3 _3 L3, 4 _4 L4, 5 _5 L5, 6 _6 L6, ; 7 _7 L7);
+    lib_choice!(rep, Choice9, 9, _0 L0, 1 _1 L1, 2 _2 L2, 3 _3 L3, 4 _4 L4, 5 _5 L5, 6 _6 L6, 7 _7 L7, ; 8 _8 L8);
+    lib_choice!(rep, Choice10, 10, _0 L0, 1 _1 L1, 2 _2 L2, 3 _3 L3, 4 _4 L4, 5 _5 L5, 6 _6 L6, 7 _7 L7, 8 _8 L8, ; 9 _9 L9);
+    lib_choice!(rep, Choice11, 11, _0 L0, 1 _1 L1, 2 _2 L2, 3 _3 L3, 4 _4 L4, 5 _5 L5, 6 _6 L6, 7 _7 L7, 8 _8 L8, 9 _9 L9, ; 10 _10 L10);
+    lib_choice!(rep, Choice12, 12, _0 L0, 1 _1 L1, 2 _2 L2, 3 _3 L3, 4 _4 L4, 5 _5 L5, 6 _6 L6, 7 _7 L7, 8 _8 L8, 9 _9 L9, 10 _10 L10, ; 11 _11 L11);
+}
+
 pub fn run(o: &Opts) -> Report {
     let mut rep = Report::default();
+    lib_choices(&mut rep);
     let chars: Vec<char> = if o.thorough {
         (0u32..=0x10FFFF).filter_map(char::from_u32).collect()
     } else {
